@@ -4,8 +4,148 @@
    instantiates np.sum with the model's pairwise summation and relates compute_lambda_sum to the model's per-class weight
    by hypothesis.  Closed under the global context. *)
 From Coq Require Import String ZArith List Bool Lia Arith.
-From Ticc Require Import Gen.PyRt Gen.G_unique_values Gen.G_solver Model.Viterbi Model.TriIndex Model.Admm Proofs.GenEquivUV.
+From Ticc Require Import Gen.PyRt Gen.G_unique_values Gen.G_solver Model.Viterbi Model.TriIndex Model.Admm Proofs.TriIndexP Proofs.GenEquivUV.
 Import ListNotations.
+
+(* ---------- generic monad / loop facts ---------- *)
+Lemma bind_ret_r {A : Type} (m : res A) : bind m (fun a => Ret a) = m.
+Proof. destruct m as [a|e]; reflexivity. Qed.
+
+Lemma foldM_ext_in {S X : Type} (f g : S -> X -> res S) (xs : list X) (s : S) :
+  (forall s x, In x xs -> f s x = g s x) -> foldM f xs s = foldM g xs s.
+Proof.
+  revert s. induction xs as [|x xs IH]; intros s H; cbn [foldM]; [reflexivity|].
+  rewrite H by (left; reflexivity). destruct (g s x) as [s'|e]; cbn [bind]; [|reflexivity].
+  apply IH. intros s0 x0 Hin. apply H. right. exact Hin.
+Qed.
+
+Lemma foldM_map {S X Y : Type} (f : S -> Y -> res S) (h : X -> Y) (xs : list X) (s : S) :
+  foldM f (map h xs) s = foldM (fun s x => f s (h x)) xs s.
+Proof.
+  revert s. induction xs as [|x xs IH]; intros s; cbn [map foldM]; [reflexivity|].
+  destruct (f s (h x)) as [s'|e]; cbn [bind]; [apply IH|reflexivity].
+Qed.
+
+Lemma foldM_flat_map {S X Y : Type} (f : S -> Y -> res S) (g : X -> list Y) (xs : list X) (s : S) :
+  foldM f (flat_map g xs) s = foldM (fun s x => foldM f (g x) s) xs s.
+Proof.
+  revert s. induction xs as [|x xs IH]; intros s; cbn [flat_map foldM]; [reflexivity|].
+  rewrite foldM_app. destruct (foldM f (g x) s) as [s'|e]; cbn [bind]; [apply IH|reflexivity].
+Qed.
+
+(* a loop whose body does not raise on states satisfying an invariant is a fold_left *)
+Lemma foldM_inv {S X : Type} (P : S -> Prop) (f : S -> X -> res S) (g : S -> X -> S) (xs : list X) (s : S) :
+  P s -> (forall s x, In x xs -> P s -> f s x = Ret (g s x) /\ P (g s x)) ->
+  foldM f xs s = Ret (fold_left g xs s).
+Proof.
+  revert s. induction xs as [|x xs IH]; intros s Hs H; cbn [foldM fold_left]; [reflexivity|].
+  destruct (H s x (or_introl eq_refl) Hs) as [Hf Hg]. rewrite Hf. cbn [bind].
+  apply IH; [exact Hg|]. intros s0 x0 Hin. apply H. right. exact Hin.
+Qed.
+
+Lemma zrange2_of_nat (s n : nat) : zrange2 (Z.of_nat s) (Z.of_nat n) = map Z.of_nat (seq s (n - s)).
+Proof.
+  unfold zrange2.
+  replace (Z.to_nat (Z.of_nat n - Z.of_nat s)) with (n - s)%nat by lia.
+  generalize (n - s)%nat as m. induction m as [|m IHm]; [reflexivity|].
+  rewrite !seq_S, !map_app, IHm. cbn [map]. do 2 f_equal. lia.
+Qed.
+
+(* the three nested loops of admm_update_z enumerate [classes N W] *)
+Lemma nested_loops {S : Type} (body : Z -> Z -> Z -> S -> res S) (N W : nat) (s : S) :
+  foldM (fun s b =>
+           s' <- foldM (fun s r =>
+                    s'' <- foldM (fun s c => body b r c s)
+                                 (zrange2 (if (b =? 0)%Z then r else 0%Z) (Z.of_nat N)) s ;;
+                    Ret s'') (zrange (Z.of_nat N)) s ;;
+           Ret s') (zrange (Z.of_nat W)) s
+  = foldM (fun s brc => let '(b, r, c) := brc in body (Z.of_nat b) (Z.of_nat r) (Z.of_nat c) s) (classes N W) s.
+Proof.
+  unfold classes. rewrite foldM_flat_map, (zrange_of_nat W), foldM_map.
+  apply foldM_ext_in. intros s0 b _. rewrite bind_ret_r.
+  rewrite foldM_flat_map, (zrange_of_nat N), foldM_map.
+  apply foldM_ext_in. intros s1 r _. rewrite bind_ret_r.
+  replace (if (Z.of_nat b =? 0)%Z then Z.of_nat r else 0%Z)
+    with (Z.of_nat (if Nat.eqb b 0 then r else 0%nat)) by (destruct b; reflexivity).
+  rewrite zrange2_of_nat, !foldM_map. reflexivity.
+Qed.
+
+(* ---------- list primitives ---------- *)
+Lemma py_map2_map2 {A B C : Type} (f : A -> B -> C) (l1 : list A) (l2 : list B) :
+  py_map2 f l1 l2 = map2 f l1 l2.
+Proof.
+  (* the two fixpoints have the same body, hence are convertible *)
+  reflexivity.
+Qed.
+
+Lemma map2_length_eq {A B C : Type} (f : A -> B -> C) (l1 : list A) (l2 : list B) :
+  length l1 = length l2 -> length (map2 f l1 l2) = length l1.
+Proof.
+  revert l2. induction l1 as [|a l1 IH]; intros l2 H; destruct l2 as [|b l2]; cbn [map2 length] in *; try reflexivity; try discriminate.
+  f_equal. apply IH. now injection H.
+Qed.
+
+Lemma np_bin_vv_eq {A : Type} (f : A -> A -> A) (a b : list A) :
+  length a = length b -> np_bin_vv f a b = Ret (map2 f a b).
+Proof.
+  intros H. unfold np_bin_vv. rewrite H, Nat.eqb_refl, py_map2_map2. reflexivity.
+Qed.
+
+Lemma set_nth_set_at {A : Type} (l : list A) (k : nat) (v : A) : set_nth k v l = set_at l k v.
+Proof.
+  revert k. induction l as [|a l IH]; intros k; destruct k as [|k]; cbn [set_nth set_at]; try reflexivity.
+  now rewrite IH.
+Qed.
+
+Lemma set_at_len {A : Type} (l : list A) (k : nat) (v : A) : length (set_at l k v) = length l.
+Proof.
+  revert k. induction l as [|a l IH]; intros k; destruct k as [|k]; cbn [set_at length]; try reflexivity.
+  now rewrite IH.
+Qed.
+
+Lemma set_all_len {A : Type} (idx : list nat) (l : list A) (v : A) : length (set_all l idx v) = length l.
+Proof.
+  unfold set_all. revert l. induction idx as [|k idx IH]; intros l; cbn [fold_left]; [reflexivity|].
+  rewrite IH. apply set_at_len.
+Qed.
+
+Lemma py_set_index_nat {A : Type} (l : list A) (k : nat) (v : A) :
+  (k < length l)%nat -> py_set_index l (Z.of_nat k) v = Ret (set_at l k v).
+Proof.
+  intros Hk. unfold py_set_index, py_len. cbv zeta.
+  assert (E1 : (Z.of_nat k <? 0)%Z = false) by (apply Z.ltb_ge; lia).
+  assert (E2 : (Z.of_nat (length l) <=? Z.of_nat k)%Z = false) by (apply Z.leb_gt; lia).
+  rewrite E1. cbv iota. rewrite E1, E2. cbn [orb]. rewrite Nat2Z.id, set_nth_set_at. reflexivity.
+Qed.
+
+Lemma py_set_indices_nat {A : Type} (idx : list nat) (l : list A) (v : A) :
+  (forall k, In k idx -> (k < length l)%nat) ->
+  py_set_indices l (map Z.of_nat idx) v = Ret (set_all l idx v).
+Proof.
+  unfold py_set_indices, set_all. revert l.
+  induction idx as [|k idx IH]; intros l H; cbn [map foldM fold_left]; [reflexivity|].
+  rewrite py_set_index_nat by (apply H; left; reflexivity). cbn [bind].
+  apply IH. intros j Hj. rewrite set_at_len. apply H. right. exact Hj.
+Qed.
+
+Lemma py_getitem_nat {A : Type} (l : list A) (k : nat) (d : A) :
+  (k < length l)%nat -> py_getitem l (Z.of_nat k) = Ret (nth k l d).
+Proof.
+  intros Hk. unfold py_getitem, py_len. cbv zeta.
+  assert (E1 : (Z.of_nat k <? 0)%Z = false) by (apply Z.ltb_ge; lia).
+  assert (E2 : (Z.of_nat (length l) <=? Z.of_nat k)%Z = false) by (apply Z.leb_gt; lia).
+  rewrite E1. cbv iota. rewrite E1, E2. cbn [orb]. rewrite Nat2Z.id, (nth_error_nth' l d Hk). reflexivity.
+Qed.
+
+Lemma mapM_getitem_nat {A : Type} (l : list A) (idx : list nat) (d : A) :
+  (forall k, In k idx -> (k < length l)%nat) ->
+  mapM (py_getitem l) (map Z.of_nat idx) = Ret (map (fun k => nth k l d) idx).
+Proof.
+  intros H. rewrite (mapM_pure _ (fun z => nth (Z.to_nat z) l d)).
+  - rewrite map_map. f_equal. apply map_ext. intros k. now rewrite Nat2Z.id.
+  - intros z Hin. apply in_map_iff in Hin. destruct Hin as [k [Hz Hin]]. subst z.
+    rewrite Nat2Z.id. apply py_getitem_nat. apply H. exact Hin.
+Qed.
 
 Section E.
   Variable F : Type.
@@ -20,13 +160,26 @@ Section E.
   Hypothesis of_int_m1 : of_int (-1)%Z = sub zero one.
   Hypothesis of_int_nat : forall n : nat, of_int (Z.of_nat n) = of_nat n.
 
-  (* STATEMENTS (to be proved):
   Theorem g_soft_threshold_eq (s q rr : F) :
     g_soft_threshold_prox F add sub mul div ltb of_int s q rr = Ret (soft_threshold zero one add sub mul div ltb s q rr).
+  Proof.
+    unfold g_soft_threshold_prox, soft_threshold, pmax0, pmin0.
+    change (of_int (- (1))%Z) with (of_int (-1)%Z).
+    rewrite of_int_0, of_int_m1.
+    destruct (ltb q s); cbn [bind].
+    - reflexivity.
+    - destruct (ltb s (mul (sub zero one) q)); cbn [bind]; reflexivity.
+  Qed.
 
   Theorem g_admm_update_u_eq (u x z : list F) :
     length u = length x -> length x = length z ->
     g_admm_update_u F add sub u x z = Ret (u_update add sub u x z).
+  Proof.
+    intros Hux Hxz. unfold g_admm_update_u, u_update.
+    rewrite (np_bin_vv_eq add u x Hux). cbn [bind].
+    rewrite np_bin_vv_eq by (rewrite map2_length_eq by exact Hux; congruence).
+    reflexivity.
+  Qed.
 
   Theorem g_admm_update_z_eq (N W : nat) (rho : F) (lam : L) (lam_of : nat -> nat -> nat -> F)
           (cls : L -> Z -> Z -> Z -> Z -> Z -> res F) (u x : list F) :
@@ -37,10 +190,47 @@ Section E.
     g_admm_update_z F zero add sub mul div ltb of_int L (np_sum zero add) cls
                     (mk_admm_args (Z.of_nat W) (Z.of_nat N) rho lam) u x
     = Ret (z_update zero one add sub mul div ltb of_nat rho lam_of N W u x).
-  *)
+  Proof.
+    intros HN HW Hlen Hu Hcls.
+    unfold g_admm_update_z, z_update.
+    cbn [aa_window_size aa_num_data_series aa_rho aa_sparsity_weight].
+    rewrite (np_bin_vv_eq add x u (eq_sym Hu)). cbn [bind]. cbv zeta.
+    unfold np_full1, py_len.
+    assert (E0 : (Z.of_nat (length x) <? 0)%Z = false) by (apply Z.ltb_ge; lia).
+    rewrite E0, Nat2Z.id. cbn [bind].
+    rewrite bind_ret_r.
+    rewrite (nested_loops
+               (fun b r c z =>
+                  t3_ <- cls lam b r c (Z.of_nat N) (Z.of_nat W) ;;
+                  t4_ <- g_locations_compressed b r c (Z.of_nat N) (Z.of_nat W) ;;
+                  t5_ <- mapM (py_getitem (map2 add x u)) t4_ ;;
+                  t6_ <- g_soft_threshold_prox F add sub mul div ltb of_int
+                           (mul rho (np_sum zero add t5_)) t3_ (mul rho (of_int (Z.of_nat W - b))) ;;
+                  z' <- py_set_indices z t4_ t6_ ;; Ret z') N W).
+    apply (foldM_inv (fun z => length z = length x)).
+    - apply repeat_length.
+    - intros z [[b r] c] Hin Hz.
+      apply TriIndexP.classes_In in Hin. destruct Hin as [Hb [Hr [Hc Hd]]].
+      assert (Hrange : forall k, In k (locations_compressed b r c N W) -> (k < length x)%nat).
+      { intros k Hk. rewrite Hlen. exact (TriIndexP.locations_compressed_in_range b r c N W k Hb Hr Hc Hd Hk). }
+      rewrite (Hcls b r c Hb Hr Hc Hd). cbn [bind].
+      rewrite (g_locations_compressed_eq b r c N W Hb Hr Hc Hd). cbn [bind].
+      rewrite (mapM_getitem_nat (map2 add x u) (locations_compressed b r c N W) zero)
+        by (rewrite map2_length_eq by (symmetry; exact Hu); exact Hrange).
+      cbn [bind]. rewrite g_soft_threshold_eq. cbn [bind].
+      rewrite py_set_indices_nat by (rewrite Hz; exact Hrange).
+      cbn [bind].
+      rewrite <- Nat2Z.inj_sub by lia. rewrite of_int_nat.
+      split; [reflexivity|].
+      rewrite set_all_len. exact Hz.
+  Qed.
 End E.
 
-Check g_soft_threshold_prox. Check g_admm_update_u. Check g_admm_update_z. Check z_update. Check soft_threshold. Check u_update.
+Print Assumptions g_soft_threshold_eq.
+Print Assumptions g_admm_update_u_eq.
+Print Assumptions g_admm_update_z_eq.
+
+
 (* sanity on an integer carrier *)
 Definition xs : list Z := [3;1;4;1;5;9;2;6;5;3]%Z.
 Definition us : list Z := [2;7;1;8;2;8;1;8;2;8]%Z.
